@@ -8,7 +8,7 @@ import extract
 import gen
 import impl
 
-RULES = [1, 3, 9, 12, 13, 18, 19, 22, 23, 24, 25, 26, 31, 35, 40, 41, 46, 47, 48]
+RULES = [1, 3, 4, 9, 12, 13, 18, 19, 22, 23, 24, 25, 26, 31, 32, 35, 40, 41, 46, 47, 48]
 HEADING_RULES = {1, 3, 22, 23, 24, 25, 26, 41}
 STYLE3 = {"consistent": 0, "atx": 1, "atx_closed": 2, "setext": 3, "setext_with_atx": 4, "setext_with_atx_closed": 5}
 DEFAULT = {
@@ -23,6 +23,7 @@ DEFAULT = {
     "md048": {"style": "consistent"},
     "md026": {"punctuation": ".,;:!。，；：！"},
     "md035": {"style": "consistent"},
+    "md004": {"style": "consistent"},
 }
 
 
@@ -37,12 +38,12 @@ CONFIGS = {
     "default": _cfg(),
     "short": _cfg(md013={"line_length": 20, "code_block_line_length": 10, "heading_line_length": 30}, md012={"maximum": 2}, md009={"br_spaces": 3},
                   md025={"level": 2}, md041={"level": 2}, md003={"style": "atx"}, md046={"style": "fenced"}, md048={"style": "tilde"},
-                  md035={"style": "---"}, md026={"punctuation": ".?"}, md022={"lines_above": 0, "lines_below": 1}),
+                  md035={"style": "---"}, md026={"punctuation": ".?"}, md004={"style": "asterisk"}, md022={"lines_above": 0, "lines_below": 1}),
     "strict": _cfg(md013={"line_length": 15, "code_blocks": False, "headings": False, "strict": True}, md009={"strict": True}, md012={"maximum": 0},
-                   md003={"style": "setext_with_atx"}, md046={"style": "indented"}, md048={"style": "backtick"}, md035={"style": "***"},
+                   md003={"style": "setext_with_atx"}, md046={"style": "indented"}, md048={"style": "backtick"}, md035={"style": "***"}, md004={"style": "sublist"},
                    md022={"lines_above": 2, "lines_below": 0}),
-    "code-low": _cfg(md013={"line_length": 30, "code_block_line_length": 12, "heading_line_length": 30}, md003={"style": "setext"}, md022={"lines_above": 1, "lines_below": 2}),
-    "head-low": _cfg(md013={"line_length": 30, "code_block_line_length": 30, "heading_line_length": 12, "code_blocks": True}, md003={"style": "atx_closed"}),
+    "code-low": _cfg(md013={"line_length": 30, "code_block_line_length": 12, "heading_line_length": 30}, md003={"style": "setext"}, md022={"lines_above": 1, "lines_below": 2}, md004={"style": "plus"}),
+    "head-low": _cfg(md013={"line_length": 30, "code_block_line_length": 30, "heading_line_length": 12, "code_blocks": True}, md003={"style": "atx_closed"}, md004={"style": "dash"}),
     "closed": _cfg(md013={"line_length": 25, "code_block_line_length": 40, "heading_line_length": 18}, md003={"style": "setext_with_atx_closed"}, md009={"br_spaces": 0}),
 }
 
@@ -55,7 +56,8 @@ def spec_params(c):
     p = [c["md009"]["br_spaces"], int(c["md009"]["strict"]),
          c["md013"]["line_length"], c["md013"]["code_block_line_length"], c["md013"]["heading_line_length"], int(c["md013"]["code_blocks"]), int(c["md013"]["headings"]), int(c["md013"]["strict"]),
          c["md012"]["maximum"], c["md022"]["lines_above"], c["md022"]["lines_below"], c["md025"]["level"], c["md041"]["level"],
-         STYLE3[c["md003"]["style"]], {"consistent": 0, "fenced": 1, "indented": 2}[c["md046"]["style"]], {"consistent": 0, "backtick": 1, "tilde": 2}[c["md048"]["style"]]]
+         STYLE3[c["md003"]["style"]], {"consistent": 0, "fenced": 1, "indented": 2}[c["md046"]["style"]], {"consistent": 0, "backtick": 1, "tilde": 2}[c["md048"]["style"]],
+         {"consistent": 0, "asterisk": 1, "plus": 2, "dash": 3, "sublist": 4}[c["md004"]["style"]]]
     hr = "" if c["md035"]["style"] == "consistent" else c["md035"]["style"]
     return " ".join(map(str, p)) + " " + extract.enc_str(c["md026"]["punctuation"]) + " " + extract.enc_str(hr)
 
@@ -102,7 +104,7 @@ def parse_answer(ans):
     for part in rest.split(";"):
         rid, v = part.split(":")
         m, o = v.split("|")
-        res[int(rid)] = (set(int(x) for x in m.split(",") if x), set(int(x) for x in o.split(",") if x))
+        res[int(rid)] = ([int(x) for x in m.split(",") if x], set(int(x) for x in o.split(",") if x))
     return inf == "1", res
 
 
@@ -159,14 +161,17 @@ def run(ctx):
         ctx.count(1, origin[i] + "/" + c)
         ctx.corr_cases += 1
         interesting = False
-        sx = sorted(spec[0][0])
-        spans = [(a, b) for a, b in zip(sx, sx[1:]) if True][::2] if len(sx) % 2 == 0 else []
+        spans = _pairs(spec[0][0])
         for rid in RULES:
-            must, open_ = spec[rid]
+            must, open_ = set(spec[rid][0]), spec[rid][1]
             got = set(rep.get(rid, []))
             if rid in HEADING_RULES:
                 # the documentation does not say at which line of a setext heading a report is placed: any of its lines counts
                 got = {next((b for a, b in spans if a <= x <= b), x) for x in got}
+            if rid == 32:
+                # ... nor at which line of a list: a report on a line of the list or on the line after it counts for the list
+                lspans = _pairs(spec[33][0])
+                got = {next((a for a, b in lspans if a <= x <= b), next((a for a, b in lspans if x == b + 1), x)) for x in got}
             if must or got:
                 interesting = True
             missed = sorted(must - got)
@@ -183,18 +188,22 @@ def run(ctx):
                               group=f"md{rid:03d}-" + ("missed" if missed else "spurious"))
         if interesting:
             ctx.seen([d, c])
-    ctx.sample({"doc": docs[good[7]], "config": "default", "spec": {k: sorted(v[0]) for k, v in parse_answer(answers[[j for j, (i, c) in enumerate(jobs) if i == good[7]][0]])[1].items() if v[0]}})
+    ctx.sample({"doc": docs[good[7]], "config": "default", "spec": {k: sorted(set(v[0])) for k, v in parse_answer(answers[[j for j, (i, c) in enumerate(jobs) if i == good[7]][0]])[1].items() if v[0]}})
     ctx.trusted += [
-        "Spec/RuleSpec.v is a specification written from newdocs/src/plugins/rule_md*.md (19 rules), over the block structure of the spec model CM; it is NOT a model of the rule implementations. Where the documentation leaves the reported line or a corner open, the line is listed as unspecified and never counted",
+        "Spec/RuleSpec.v is a specification written from newdocs/src/plugins/rule_md*.md (21 rules), over the block structure of the spec model CM; it is NOT a model of the rule implementations. Where the documentation leaves the reported line or a corner open, the line is listed as unspecified and never counted",
         "extraction + driver.ml; PyMarkdownApi.scan_string with the rules' configuration set through the API",
         "only documents inside the fragment F on which PyMarkdown's HTML equals the spec model's are judged (the property's own premise)",
     ]
     return ctx.finish(
         level="other",
-        rule="documents of <= 3 lines over a 37-template vocabulary of headings, long lines, trailing spaces, fences, breaks and containers, a fixed 30000-document sample of 4-line documents, 3-line documents over the general 60-template vocabulary; each under 6 configurations (default + 5 that move every documented configuration item); quick = seed-selected subsets, each document under the default and one other configuration; non-trivial = a case in which some rule reports or must report; distinct by (document, configuration)",
-        assumptions=["inside F (no inline markup, no HTML, no tabs, no link definitions); rules MD004, MD010, MD032, MD042, MD045 are outside this specification", "md013.stern, md009.list_item_empty_lines, md003.allow-setext-update, md024's options and front-matter titles are not varied"],
+        rule="documents of <= 3 lines over a 40-template vocabulary of headings, long lines, trailing spaces, fences, breaks and containers, a fixed 30000-document sample of 4-line documents, 3-line documents over the general 60-template vocabulary; each under 6 configurations (default + 5 that move every documented configuration item); quick = seed-selected subsets, each document under the default and one other configuration; non-trivial = a case in which some rule reports or must report; distinct by (document, configuration)",
+        assumptions=["inside F (no inline markup, no HTML, no tabs, no link definitions); rules MD010, MD042, MD045 are outside this specification", "md013.stern, md009.list_item_empty_lines, md003.allow-setext-update, md024's options and front-matter titles are not varied"],
         extra_cov={"exhaustive": ctx.tier == "thorough", "explanation": "theorems are about the specification (what its verdicts mean, for all documents); that each rule implements its specification is decided by comparing reported lines on enumerated documents and configurations"},
     )
+
+
+def _pairs(flat):
+    return list(zip(flat[0::2], flat[1::2]))
 
 
 def _cfg_of(rid, c):
